@@ -328,3 +328,68 @@ Qed.
 
 Lemma visits_stand_top fuel fs top v : In v (doc_visits fuel fs top) -> stands_in fs v.
 Proof. apply visits_stand_l. Qed.
+
+(* ---- inputs are read in place, other lines are ignored: the flattening of a file is the
+   flattening of the lines before, then of the input, then of the lines after *)
+Lemma seq_doc_assoc a b c : seq_doc (seq_doc a b) c = seq_doc a (seq_doc b c).
+Proof.
+  destruct a as [va sa], b as [vb sb], c as [vc sc]. destruct sa; cbn; auto.
+  destruct sb; cbn; auto. now rewrite app_assoc.
+Qed.
+
+Lemma seq_doc_nil e : seq_doc ([], Complete) e = e.
+Proof. destruct e; reflexivity. Qed.
+
+Lemma expand_lines_cons erec name l rest k :
+  expand_lines erec name (l :: rest) k =
+  seq_doc (match match_command l with
+           | None => ([], Complete)
+           | Some (CInput, g) => erec g
+           | Some (c, v) => ([mkvisit name k (strip l) c v], Complete)
+           end) (expand_lines erec name rest (S k)).
+Proof.
+  cbn [expand_lines]. destruct (match_command l) as [[c v]|].
+  - destruct c; destruct (expand_lines erec name rest (S k)); reflexivity.
+  - now rewrite seq_doc_nil.
+Qed.
+
+Lemma expand_lines_app erec name : forall l1 l2 k,
+  expand_lines erec name (l1 ++ l2) k =
+  seq_doc (expand_lines erec name l1 k) (expand_lines erec name l2 (length l1 + k)).
+Proof.
+  induction l1 as [|l r IH]; intros l2 k.
+  - cbn [app expand_lines length Nat.add]. now rewrite seq_doc_nil.
+  - cbn [app]. rewrite !expand_lines_cons, IH, seq_doc_assoc. cbn [length].
+    replace (length r + S k) with (S (length r) + k) by lia. reflexivity.
+Qed.
+
+Theorem inputs_read_in_place_l f fs name content pre l post g :
+  fs name = Some content -> lines_of content = pre ++ l :: post ->
+  match_command l = Some (CInput, g) ->
+  expand (S f) fs name =
+  seq_doc (expand_lines (expand f fs) name pre 1)
+    (seq_doc (expand f fs g) (expand_lines (expand f fs) name post (S (length pre + 1)))).
+Proof.
+  intros HF HL HM. cbn [expand]. rewrite HF, HL, expand_lines_app, expand_lines_cons, HM. reflexivity.
+Qed.
+
+Theorem other_lines_ignored_l f fs name content pre l post :
+  fs name = Some content -> lines_of content = pre ++ l :: post ->
+  match_command l = None ->
+  expand (S f) fs name =
+  seq_doc (expand_lines (expand f fs) name pre 1) (expand_lines (expand f fs) name post (S (length pre + 1))).
+Proof.
+  intros HF HL HM. cbn [expand]. rewrite HF, HL, expand_lines_app, expand_lines_cons, HM, seq_doc_nil. reflexivity.
+Qed.
+
+Theorem command_line_visited_l f fs name content pre l post c v :
+  fs name = Some content -> lines_of content = pre ++ l :: post ->
+  match_command l = Some (c, v) -> c <> CInput ->
+  expand (S f) fs name =
+  seq_doc (expand_lines (expand f fs) name pre 1)
+    (seq_doc ([mkvisit name (length pre + 1) (strip l) c v], Complete)
+             (expand_lines (expand f fs) name post (S (length pre + 1)))).
+Proof.
+  intros HF HL HM HC. cbn [expand]. rewrite HF, HL, expand_lines_app, expand_lines_cons, HM.
+  destruct c; try congruence; reflexivity.
+Qed.
